@@ -1149,7 +1149,13 @@ class App:
     def _python_error_handler(
         self, req: Request, resp: Response, error: BaseException, params: Dict[str, Any]
     ) -> None:
-        req.log_error(traceback.format_exc())
+        try:
+            req.log_error(traceback.format_exc())
+        except Exception:
+            # NOTE: Rendering the traceback runs code of the raised object
+            #   (__str__, __cause__, ...); whatever that does, answer 500.
+            req.log_error('Unhandled exception (the traceback could not be rendered)')
+
         self._compose_error_response(req, resp, HTTPInternalServerError())
 
     def _find_error_handler(self, ex: BaseException) -> Optional[ErrorHandler]:
